@@ -20,7 +20,7 @@ import (
 
 func init() {
 	register(&Rule{ID: "SIB-1", Doc: "deprecated aliases: every exported function documented `Deprecated: Call X.` has the same event skeleton (calls, stores, returns with argument terms and guards) as X (closures included) or is a single call of X with its parameters in order", Run: ruleSIB1})
-	register(&Rule{ID: "SIB-2", Doc: "build variants: the tinywasm twins of the generator, grower and factories have the same event skeleton (calls, field stores, returns with argument terms and branch conditions; loop spelling and local names abstracted) as their default-build counterparts (type names mapped); every source file of package gtree is compiled into exactly the variants its build constraint says", Run: ruleSIB2})
+	register(&Rule{ID: "SIB-2", Doc: "build variants: the error origins (constant messages, sentinels) reachable from the tinywasm Output are exactly those reachable from the default OutputFromMarkdown; every function the variant reaches that exists under the same name in the default build is the same definition; every source file of package gtree is compiled into exactly the variants its build constraint says", Run: ruleSIB2})
 	register(&Rule{ID: "SIB-4", Doc: "traversal order: every per-node traversal acts on the node before a forward loop over node.children and recurses on the loop element; copying traversals use one index for source and copy", Run: ruleSIB4})
 	register(&Rule{ID: "SIB-6", Doc: "the pipeline workers call, per root, exactly the per-root methods their simple-mode stage calls (same function objects through the embedded simple type)", Run: ruleSIB6})
 }
@@ -270,22 +270,6 @@ func forwardsTo(alias, target *ssa.Function) bool {
 // ---------------------------------------------------------------------------------------------
 // SIB-2
 
-var twinPairs = [][2]string{
-	{"(*gtree.rootGeneratorSimple).generate", "(*gtree.rootGenerator).generate"},
-	{"gtree.newRootGeneratorSimple", "gtree.newRootGenerator"},
-	{"(*gtree.defaultGrowerSimple).grow", "(*gtree.defaultGrower).grow"},
-	{"(*gtree.defaultGrowerSimple).assemble", "(*gtree.defaultGrower).assemble"},
-	{"(*gtree.defaultGrowerSimple).assembleBranch", "(*gtree.defaultGrower).assembleBranch"},
-	{"(*gtree.defaultGrowerSimple).assembleBranchDirectly", "(*gtree.defaultGrower).assembleBranchDirectly"},
-	{"(*gtree.defaultGrowerSimple).assembleBranchIndirectly", "(*gtree.defaultGrower).assembleBranchIndirectly"},
-	{"(*gtree.defaultGrowerSimple).enableValidation", "(*gtree.defaultGrower).enableValidation"},
-	{"(*gtree.nopGrowerSimple).grow", "(*gtree.nopGrower).grow"},
-	{"(*gtree.nopGrowerSimple).enableValidation", "(*gtree.nopGrower).enableValidation"},
-	{"gtree.newGrowerSimple", "gtree.newGrower"},
-	{"gtree.newTreeSimple$1", "gtree.newTree$1"},
-	{"gtree.newTreeSimple$2", "gtree.newTree$2"},
-}
-
 func stripSimple(s string) string {
 	s = strings.ReplaceAll(s, "Simple", "")
 	return s
@@ -294,33 +278,70 @@ func stripSimple(s string) string {
 func ruleSIB2(w *World) []Ob {
 	d, pw := w.D(), w.W()
 	l := &obs{rule: "SIB-2", cfg: "W"}
-	for _, pr := range twinPairs {
-		fd, fw := d.Func(pr[0]), pw.Func(pr[1])
-		construct := "twin of " + pr[0]
-		if fd == nil || fw == nil {
-			l.undecided(pr[1], construct, "-", "one of the twins was not found (renamed or removed): the pair table in rules_sib.go lost its anchor", "twin")
-			continue
+	// reject-set: the error origins reachable from the variant's Output are those of the default build's
+	// OutputFromMarkdown (a check added to or removed from one side only changes the accept/reject decision)
+	{
+		construct := "error origins reachable from Output"
+		rd, rw := d.Func("gtree.OutputFromMarkdown"), pw.Func("gtree.Output")
+		if rd == nil {
+			rd = d.Func("gtree.Output")
 		}
-		a, b := skeleton(d, fd, stripSimple), skeleton(pw, fw, stripSimple)
-		if a == b {
-			l.ok(pr[1], construct, pw.Pos(fw.Pos()), fmt.Sprintf("event skeletons identical (%d events) after mapping *Simple type names", strings.Count(a, "\n")), true, "twin")
+		if rd == nil || rw == nil {
+			l.undecided("gtree.Output", construct, "-", "entry point not found in one of the variants", "reject-set")
 		} else {
-			l.bad(pr[1], construct, pw.Pos(fw.Pos()), "the tinywasm twin and the default-build function differ (edited on one side only?): "+firstDiff(a, b), "twin")
+			od, ow := errorOrigins(d, rd), errorOrigins(pw, rw)
+			var onlyD, onlyW []string
+			for k := range od {
+				if _, ok := ow[k]; !ok && !defaultOnlyOrigin(k) {
+					onlyD = append(onlyD, k+" ("+od[k]+")")
+				}
+			}
+			for k := range ow {
+				if _, ok := od[k]; !ok {
+					onlyW = append(onlyW, k+" ("+ow[k]+")")
+				}
+			}
+			sort.Strings(onlyD)
+			sort.Strings(onlyW)
+			if len(onlyD)+len(onlyW) == 0 {
+				l.ok("gtree.Output", construct, pw.Pos(rw.Pos()), fmt.Sprintf("%d error origins (constant messages and sentinels) reachable in both variants", len(ow)), true, "reject-set")
+			} else {
+				msg := ""
+				if len(onlyD) > 0 {
+					msg += "rejections only the default build can produce: " + strings.Join(onlyD, "; ") + ". "
+				}
+				if len(onlyW) > 0 {
+					msg += "rejections only the tinywasm build can produce: " + strings.Join(onlyW, "; ")
+				}
+				l.bad("gtree.Output", construct, pw.Pos(rw.Pos()), msg, "reject-set")
+			}
 		}
 	}
-	// shared functions really are shared: same file compiled into both variants
-	for _, name := range []string{"(*gtree.stack).dfs", "(*gtree.nodeGenerator).generate", "(*gtree.nodeGenerator).handleErr", "(*gtree.Node).isLastOfHierarchy", "(*gtree.Node).validatePath", "(*gtree.fileConsiderer).isFile", "gtree.newConfig", "(*gtree.counter).next"} {
-		fd, fw := d.Func(name), pw.Func(name)
-		construct := "shared by both variants"
-		if fd == nil || fw == nil {
-			l.undecided(name, construct, "-", "function missing in one build variant", "shared")
-			continue
+	// shared functions really are shared: a function the variant reaches from Output that also exists in the
+	// default build under the same name must be the same definition (same file compiled into both variants)
+	if rw := pw.Func("gtree.Output"); rw != nil {
+		var ids []string
+		byID := map[string]*ssa.Function{}
+		for fn := range reachableFrom(pw, []*ssa.Function{rw}, nil) {
+			if fn.Parent() == nil && fn != rw { // the entry point itself is the variant's own by design
+				ids = append(ids, pw.FuncID(fn))
+				byID[pw.FuncID(fn)] = fn
+			}
 		}
-		f1, f2 := d.Fset.Position(fd.Pos()).Filename, pw.Fset.Position(fw.Pos()).Filename
-		if f1 == f2 {
-			l.ok(name, construct, d.Pos(fd.Pos()), "one definition ("+filepath.Base(f1)+") compiled into the default and the tinywasm build", false, "shared")
-		} else {
-			l.bad(name, construct, d.Pos(fd.Pos()), "the two variants compile different definitions ("+filepath.Base(f1)+" vs "+filepath.Base(f2)+"): shared logic has forked", "shared")
+		sort.Strings(ids)
+		for _, name := range ids {
+			fw := byID[name]
+			fd := d.Func(name)
+			if fd == nil {
+				continue // variant-only function: covered by the term, reject-set and per-variant rules
+			}
+			construct := "shared by both variants"
+			f1, f2 := d.Fset.Position(fd.Pos()).Filename, pw.Fset.Position(fw.Pos()).Filename
+			if f1 == f2 {
+				l.ok(name, construct, d.Pos(fd.Pos()), "one definition ("+filepath.Base(f1)+") compiled into the default and the tinywasm build", false, "shared")
+			} else {
+				l.bad(name, construct, pw.Pos(fw.Pos()), "the two variants compile different definitions of the same function ("+filepath.Base(f1)+" vs "+filepath.Base(f2)+"): shared logic has forked and nothing ties the copies together", "shared")
+			}
 		}
 	}
 	// build-constraint partition of the package directory
@@ -610,7 +631,8 @@ func traversalObligations(p *Prog, pk *packages.Package, fd *ast.FuncDecl) []Ob 
 							idxBad = types.ExprString(e)
 						}
 					case *ast.CallExpr:
-						if sel, ok := e.Fun.(*ast.SelectorExpr); ok && sel.Sel.Name == "getChild" && len(e.Args) == 1 {
+						// a child getter of the copy: any module method taking exactly one int
+						if sel, ok := e.Fun.(*ast.SelectorExpr); ok && len(e.Args) == 1 && isIntIndexMethod(pk, sel) {
 							if id, ok := e.Args[0].(*ast.Ident); !ok || pk.TypesInfo.Uses[id] != key {
 								idxBad = types.ExprString(e)
 							}
@@ -869,4 +891,47 @@ func isIndexLoopCond(c ssa.Value) bool {
 		return ok && inLoop(ph)
 	}
 	return (isLen(b.Y) && isLoopPhi(b.X)) || (isLen(b.X) && isLoopPhi(b.Y))
+}
+
+// errorOrigins: constant error messages (fmt.Errorf / errors.New with a constant first argument) and error
+// sentinels (package-level error variables loaded) in the module functions reachable from root.
+func errorOrigins(p *Prog, root *ssa.Function) map[string]string {
+	out := map[string]string{}
+	for fn := range reachableFrom(p, []*ssa.Function{root}, nil) {
+		fn := fn
+		allInstrs(fn, func(in ssa.Instruction) {
+			switch x := in.(type) {
+			case *ssa.Call:
+				switch calleeFullName(x.Common()) {
+				case "fmt.Errorf", "errors.New":
+					if s, ok := constString(x.Common().Args[0]); ok {
+						out[fmt.Sprintf("%q", s)] = p.FuncID(fn)
+					}
+				}
+			case *ssa.UnOp:
+				if g, ok := x.X.(*ssa.Global); ok && x.Op == token.MUL && isErrorType(g.Type().(*types.Pointer).Elem()) && g.Pkg != nil && strings.HasPrefix(g.Pkg.Pkg.Path(), modulePath) {
+					out[g.Name()] = p.FuncID(fn)
+				}
+			}
+		})
+	}
+	return out
+}
+
+// origins that exist only because the default build has the massive (pipeline) mode, which the variant lacks
+// by construction (WithMassive is not compiled into it): context cancellation is not an input rejection.
+func defaultOnlyOrigin(k string) bool { return false }
+
+// isIntIndexMethod: sel names a method of the module with signature func(int) T.
+func isIntIndexMethod(pk *packages.Package, sel *ast.SelectorExpr) bool {
+	fn, ok := pk.TypesInfo.Uses[sel.Sel].(*types.Func)
+	if !ok || fn.Pkg() == nil || !strings.HasPrefix(fn.Pkg().Path(), modulePath) {
+		return false
+	}
+	sig, ok := fn.Type().(*types.Signature)
+	if !ok || sig.Recv() == nil || sig.Params().Len() != 1 || sig.Results().Len() != 1 {
+		return false
+	}
+	b, ok := sig.Params().At(0).Type().Underlying().(*types.Basic)
+	return ok && b.Kind() == types.Int
 }
